@@ -87,6 +87,45 @@ def systems(tier):
     return d
 
 
+def pts_longpiece(tier):
+    algs = ALGS if tier == 'thorough' else ['md5', 'sha1', 'sha256', 'sha512', 'blake256', 'blake2s', 'blake2b']
+    return [(a, nb) for a in algs for nb in ((257, 300) if tier == 'thorough' else (257,))]
+
+
+def run_longpiece(ctx, pt):
+    """one non-final piece of more than 256 blocks (sampled: the property enumerates cut sets up to 4 blocks)"""
+    a, nb = pt
+    bl = HF.blocklen(a)
+    M = expander(nb * bl + bl + 7, 40)
+    o = HF.make(a)
+    o.initstate()
+    ctx.eq('C14/%s/long-piece' % a, ctx.attempt(lambda: o.update(M[:nb * bl], padding=False))[0], 'ok')
+    ctx.eq('C14/%s/long-piece/bit-counter' % a, o.padmethod.bitcnt, 8 * nb * bl)
+    ctx.eq('C14/%s/long-piece' % a, ctx.attempt(lambda: o.update(M[nb * bl:(nb + 1) * bl], padding=False))[0], 'ok')
+    ctx.eq('C14/%s/long-piece/close' % a, ctx.attempt(lambda: o.update(M[(nb + 1) * bl:], padding=True)), ('ok', HF.ref(a, M)))
+
+
+def pts_nil_long(tier):
+    return [(n, cuts) for n in ((66000, 70000) if tier == 'thorough' else (66000,)) for cuts in ((65530,), (65540, 65600), (100, 65534, 65536))]
+
+
+def run_nil_long(ctx, pt):
+    from crysp.nilsimsa import Nilsimsa
+    from mc.refs import lsh
+    n, cuts = pt
+    M = (lsh.T0 * (n // len(lsh.T0) + 1))[:n]
+    whole = ctx.attempt(lambda: Nilsimsa()(M))
+
+    def f():
+        o = Nilsimsa()
+        p = 0
+        for c in list(cuts) + [n]:
+            o.update(M[p:c])
+            p = c
+        return o.digest()
+    ctx.eq('C14/nilsimsa/long-stream-cuts', ctx.attempt(f), whole)
+
+
 # ---- Nilsimsa: every cut at any byte position --------------------------------------------
 
 def pts_nil(tier):
@@ -119,6 +158,10 @@ def subchecks():
     return [
         hsub('pieces', systems, 20,
              bound='16 hashes (MD4, MD5, SHA-0, SHA-1, SHA-224/256/384/512, SHA-512/224, SHA-512/256, BLAKE-224/256/384/512, BLAKE2s, BLAKE2b) x message of 0..3 (thorough 0..4) blocks + tail in {0,1,blen-lenfield-1,blen-lenfield,blen-1}, plus messages of 6 and 9 (thorough 17) blocks + 1 byte; events: feed next 0/1/2/3 blocks, close with the rest; BFS over all histories (all compositions, empty pieces at every position), states deduplicated by (chaining value, bit counter, pad flag, position); each piece compared with the one-piece prefix state of a fresh object, each closing digest with the reference digest'),
+        Sub('long-pieces', pts_longpiece, run_longpiece, engine='H', exhaustive=False,
+            bound='one non-final piece of 257 (thorough also 300) blocks, one more block, closing piece of 7 bytes; 7 hashes (thorough all 16)'),
+        Sub('nilsimsa-long-streams', pts_nil_long, run_nil_long, engine='H', exhaustive=False,
+            bound='Nilsimsa stream of 66000 (thorough also 70000) bytes cut at {65530}, {65540,65600}, {100,65534,65536} vs the one-shot digest'),
         Sub('nilsimsa-cuts', pts_nil, run_nil, engine='D',
             bound='Nilsimsa targets {53,17} x 2 alphabets x every message length 0..12 (thorough 0..16) x every 1-cut and 2-cut position; lengths {35,36,45,67} (thorough 8 lengths up to 100, across the digest threshold steps) x every 1-cut and every 7th second cut'),
     ]
